@@ -9,10 +9,11 @@ from .visualisation.dimensionality_reduction import DimensionalityReducer
 
 def get_individual_id(individual: Individual) -> str:
     """
-    Tree structure in `treelib` requires identifiers for nodes. This function returns
-    a string representation of the individual's genome, which usually is unique for each individual.
+    Tree structure in `treelib` requires identifiers for nodes. The identifier has to be unique for each
+    individual: the string representation of the genome is not (numpy prints 8 significant digits, so
+    genomes of a tightly converged population collide and their nodes used to be dropped silently).
     """
-    return str(individual.genome)
+    return str(id(individual))
 
 
 class NearestBetterClustering:
@@ -154,7 +155,7 @@ class NearestBetterClustering:
                 reduced_members_genomes[:, 0],
                 reduced_members_genomes[:, 1],
                 color=color,
-                label=f"Cluster centered at {cluster_center_id}",
+                label=f"Cluster centered at {cluster_center}",
             )
             reduced_cluster_center = dimensionality_reducer.transform(np.array([cluster_center]))
             plt.scatter(
